@@ -109,7 +109,7 @@ def run_bin(exe, args, timeout=7200, env=None):
     except subprocess.TimeoutExpired:
         raise core.InfraError("C12 harness timed out (possible non-termination in the code under "
                               "test): %s %s" % (exe, args))
-    if rc != 0:
+    if rc != 0 and not (rc == 86 and "trap-signal" in out):     # 86: a trap inside the code under test, reported as a V line
         raise core.InfraError("C12 harness %s %s failed rc=%d: %s" % (exe, args, rc, err[-1500:]))
     res = {}
     for line in out.split("\n"):
